@@ -30,6 +30,18 @@ CHECKS = {
                 note=TRUST),
 }
 
+CHECKS.update({
+    "C08": dict(level=EX, design="3 C08", technique="Chess.tla PosKey/SameForHash as the identity oracle: TLC judges hash pairs recorded from play and transposition probes (ChessTrace!THashPair); TLC-generated single-component variants with required relation replayed into ZobristHasher",
+                text="The specification defines which positions must and must not share a hash; candidate pairs among all met positions (complete for both clauses relative to the met set) are judged by TLC, and TLC generates the variants (castling right, en-passant availability, side, clocks, placement) that the real hasher must separate or identify, under three seeds.",
+                note=TRUST + "; 64-bit chance collisions are treated as violations (probability < 1e-7 per run)"),
+    "C11": dict(level=EX, design="3 C11", technique="ChessText!ToFen (independent TLA+ FEN writer): TLC validates write/read/re-write round trips recorded along play and generates canonical FENs (all right sets, both en-passant ranks, extreme counters) replayed through the real reader and writer",
+                text="Both directions of the round trip are decided against an independent writer in the specification; the generated set is exhaustive over right sets x en-passant targets x counter pairs on five boards.",
+                note=TRUST),
+    "C12": dict(level=EX, design="3 C12", technique="ChessText!SanSpellings/Lan/Negatives (independent TLA+ SAN writer) generated by TLC for play positions and an enumerated ambiguity family, replayed through the real SAN reader, move filter and LAN writer",
+                text="Every admissible spelling of every legal move must select exactly that move, negatives nothing; LAN text must equal the specification's and select the same move again. All spellings of all moves of the sampled/enumerated positions are tried.",
+                note=TRUST),
+})
+
 NOT_YET = {
 }
 
